@@ -124,10 +124,14 @@ def _install_acc_stub(h, cfg, Xc, fit_intercept, captured):
             return shim.sarr(out)
         gbcd.AndersonAcceleration = _AccStub
     elif solver == 'GramCD':
-        G = Xc.T @ Xc / n
+        # exact Gram matrix (float products of catalogue entries can be one ulp off the rational they stand for, which the
+        # engine would then take literally: spurious counterexamples in slivers of width 1e-17)
+        from fractions import Fraction
+        Xf = [[Fraction(float(Xc[i, j])).limit_denominator(10 ** 6) for j in range(p)] for i in range(n)]
+        G = [[sum(Xf[i][j] * Xf[i][k] for i in range(n)) / n for k in range(p)] for j in range(p)]
 
         def lin(w_arg, g_arg, w_acc):
-            return shim.sarr([g_arg[j] + sum(G[j, k] * (w_acc[k] - w_arg[k]) for k in range(p) if G[j, k] != 0)
+            return shim.sarr([g_arg[j] + sum(G[j][k] * (w_acc[k] - w_arg[k]) for k in range(p) if G[j][k] != 0)
                               for j in range(p)])
         gcd.AndersonAcceleration = _AccStub
     _AccStub.lin = staticmethod(lin)
